@@ -567,6 +567,13 @@ def parse_cases(rng, n, tier):
     for t in sysn[:40] + rng.sample(sysn[40:], max(0, min(nn, len(sysn)) - 40)):
         out.append((join_tables([t]), 'special-name'))
     pool += sysf[::7] + sysn[::9]
+    # a table with many top-level objects followed by a tiny one: the later passes walk the whole tree (fuel / time by total size)
+    for _ in range({'quick': 2, 'thorough': 12, 'search': 2}[tier]):
+        big = []
+        for i in range(rng.randrange(300, 520)):
+            big += [0x08] + rand_nameseg(rng) + rng.choice([[0x00], [0x01], [0x0a, rng.randrange(256)]])
+        small = rng.choice([[0x08] + _nm('ZZZZ') + [0x01], special_name_case(rng), rng.choice(SEEDS[:4])])
+        out.append((join_tables([big, small]), 'many-then-small'))
     big_budget = {'quick': 40, 'thorough': 800, 'search': 100}[tier]      # mutations of the 8.6 KB DSDT
     big_agree = {'quick': 1, 'thorough': 20, 'search': 0}[tier]           # ... of which with model agreement (13 s each)
     while len(out) < n:
